@@ -245,9 +245,11 @@ func TestVerif_C01(t *testing.T) {
 				map[string]any{"event": e, "got": string(ser), "want": string(vk.CanonEvent(e))})
 		}
 		// the independent verifier is slow under the race detector: it cross-checks every
-		// signed event in the thorough tier and one in sixteen in the quick tier; the id
+		// signed event (and an eighth of their alterations) in the thorough tier and one
+		// event in sixteen with all its alterations in the quick tier; the id
 		// part of the reference (canonical form + SHA-256) is always checked
 		fullRef := vk.Tier() == "thorough" || r.IntN(16) == 0
+		tamperRef := fullRef && (vk.Tier() != "thorough" || r.IntN(8) == 0)
 		if fullRef {
 			rep.Count("bip340_reference_verifications", 1)
 			if !vk.RefAuthentic(e) {
@@ -296,7 +298,7 @@ func TestVerif_C01(t *testing.T) {
 			// signature makes the event not authentic; an alteration that leaves all of
 			// them as they were (swapping two equal tags) leaves it authentic
 			want := bytes.Equal(vk.CanonEvent(c), vk.CanonEvent(e)) && c.ID == e.ID && c.Pubkey == e.Pubkey && c.Sig == e.Sig
-			if fullRef {
+			if tamperRef {
 				rep.Count("bip340_reference_verifications", 1)
 				if ref := vk.RefAuthentic(c); ref != want {
 					rep.Violation("harness/reference-disagrees", fmt.Sprintf("reference says %v for tamper %s", ref, tm.name), map[string]any{"original": e, "altered": c})
@@ -335,7 +337,7 @@ func TestVerif_C01(t *testing.T) {
 	}
 
 	// (1) random hostile events
-	n := vk.N(3000, 60000)
+	n := vk.N(3000, 15000)
 	vk.Parallel(n, func(i int) {
 		r := vk.RNG("C01/random", i)
 		var k vk.Key
